@@ -185,7 +185,7 @@ def resonant_model(rng, **fixed_opts):
     from ebisim.simulation import AdvancedModel, Device
     from ebisim.simulation._result import Rate
     fixed = dict(DR=True, RADIAL_DYNAMICS=False); fixed.update(fixed_opts)
-    z = int(rng.choice([8, 10, 11, 18, 19, 20, 26]))
+    z = int(rng.choice([9, 10, 11, 12, 14, 18, 19, 20, 26]))
     el = ebisim.Element.get(z)
     er = float(el.dr_e_res[int(rng.integers(0, el.dr_e_res.size))])
     kw = gens.device_kwargs(rng, n_grid=60)
@@ -224,7 +224,7 @@ def compensated_state(rng, m, frac=None):
     from ebisim.physconst import Q_E, M_E
     d = m.device
     nq = m.nq
-    frac = float(rng.uniform(0.1, 0.6)) if frac is None else frac
+    frac = float(rng.uniform(0.2, 0.9)) if frac is None else frac
     ne_l = d.current / (Q_E * np.sqrt(2 * Q_E * d.e_kin / M_E))
     n = np.full(nq, 1e-7)
     ions = np.nonzero(np.asarray(m.q) >= 1)[0]
